@@ -571,6 +571,13 @@ def _run_edge_test(P, g, vals, rec, si, depth=3, stmts=None, env=None):
         return None
 
     hooks = {'call': call_hook, 'opaque_test': lambda i_, n_: False}
+    if env is not None and '__segsub' in env:
+        segsub = env['__segsub']
+
+        def sub_hook(I, e, base, segsub=segsub):
+            k_ = (norm(e.value), norm(e.slice))
+            return segsub.get(k_)
+        hooks['subscript'] = sub_hook
     if is_si:
         try:
             I, ctl = ordeval.run_fragment(g.node.body, env, hooks)
@@ -605,6 +612,17 @@ def box_edges(P, R, tier='quick'):
                 if isinstance(s, ast.Assign) and isinstance(s.targets[0], ast.Name) and isinstance(s.value, ast.Subscript) and norm(s.value.value) == f.params[5]:
                     segv.append((s.targets[0].id, norm(s.value.slice)))
             if len(segv) != 4:
+                # the four coordinates of the segment are read in place (`values[k], values[k + 1], values[k + 2], values[k + 3]` as call arguments)
+                subs = {}
+                for x in [y for st in loop.body for y in ast.walk(st)]:
+                    if isinstance(x, ast.Subscript) and norm(x.value) == f.params[5] and isinstance(x.ctx, ast.Load):
+                        subs[norm(x.slice)] = x
+                if len(subs) == 4 and not segv:
+                    keys = sorted(subs, key=lambda t: (t.count('+'), t))
+                    base_ = keys[0]
+                    order = {base_: 0, f'{base_} + 1': 1, f'{base_} + 2': 2, f'{base_} + 3': 3}
+                    if set(order) == set(subs) and any(isinstance(c, ast.Call) and (lambda r: r and r[0] == 'func' and _reaches(P, r[1], si))(P.resolve_call(f, c)) for st in loop.body for c in ast.walk(st)):
+                        sites.append((loop, list(loop.body), None, {(f.params[5], k_): v_ for k_, v_ in order.items()}))
                 continue
             xn = [n_ for n_, ix in segv if ix.count('+') == 0 or ix.endswith('+ 2')]
             yn = [n_ for n_, ix in segv if ix.endswith('+ 1') or ix.endswith('+ 3')]
@@ -622,10 +640,16 @@ def box_edges(P, R, tier='quick'):
         undecided = False
         ncases = 0
         pairs = [(cx, cy) for cx in seg_cases for cy in (seg_cases if tier == 'thorough' else few)] + ([] if tier == 'thorough' else [(cx, cy) for cx in few for cy in seg_cases])
+        def seg_env(env, xn, yn, ranks):
+            syms = [Sym(ranks[0], 'ex0', 'X'), Sym(ranks[1], 'ey0', 'Y'), Sym(ranks[2], 'ex1', 'X'), Sym(ranks[3], 'ey1', 'Y')]
+            if xn is None:
+                env['__segsub'] = {k_: syms[i_] for k_, i_ in yn.items()}       # yn carries the in-place subscripts -> role
+            else:
+                env.update({xn[0]: syms[0], yn[0]: syms[1], xn[1]: syms[2], yn[1]: syms[3]})
         for loop, rest, xn, yn in sites:
             for cx, cy in pairs:
                 env = box_env((cx[0], cx[1]), (cy[0], cy[1]), bn)
-                env.update({xn[0]: Sym(cx[2], 'ex0', 'X'), xn[1]: Sym(cx[3], 'ex1', 'X'), yn[0]: Sym(cy[2], 'ey0', 'Y'), yn[1]: Sym(cy[3], 'ey1', 'Y')})
+                seg_env(env, xn, yn, (cx[2], cy[2], cx[3], cy[3]))
                 rec = []
                 try:
                     _run_edge_test(P, f, None, rec, si, stmts=rest, env=env)
@@ -651,10 +675,37 @@ def box_edges(P, R, tier='quick'):
                         ovx = not (max(ax) < min(bx) or min(ax) > max(bx))
                         ovy = not (max(ay) < min(by) or min(ay) > max(by))
                         a_zero = ax[0] == ax[1] and ay[0] == ay[1]      # a repeated vertex is a point: covered by the vertex test and by its neighbours
-                        if ovx and ovy and not a_zero:
+                        b_zero = bx[0] == bx[1] and by[0] == by[1]      # the same when the segment is handed over second (box edges have positive length)
+                        if ovx and ovy and not a_zero and not b_zero:
                             unsound.append({'edge': b, 'x(q0,q1,e0,e1)': cx, 'y(q0,q1,e0,e1)': cy})
             if undecided:
                 break
+        # NaN world (C01.d): the vertices of a ring or line whose coordinates are NaN - an element that holds vertices but no finite coordinate - must be inert:
+        # with both end points of the segment NaN, every edge test is REJECTED in the comparison-only prefix of segments_intersect.  (S15) min / max keep their
+        # first operand when the other is NaN, so this depends on which of the two segments is handed over first
+        if not undecided:
+            R.assume('S15: python / numba min(a, b) and max(a, b) return a when b is NaN (they return b only if it compares smaller / greater)')
+            leaks = []
+            for loop, rest, xn, yn in sites:
+                for cx, cy in [((0, 1), (0, 1))]:
+                    env = box_env(cx, cy, bn)
+                    seg_env(env, xn, yn, (None, None, None, None))
+                    rec = []
+                    try:
+                        _run_edge_test(P, f, None, rec, si, stmts=rest, env=env)
+                    except ordeval.Ctl:
+                        pass
+                    except (ordeval.NotComparisonOnly, ordeval.AxisMismatch, _PrefixEnd, RecursionError, KeyError, NameError, TypeError):
+                        rec = None
+                    if rec is None:
+                        continue
+                    for v, outcome in rec:
+                        if outcome != 'rejected':
+                            leaks.append([getattr(x, 'name', '?') for x in v] if v else '?')
+            R.check(not leaks, 'C01.d', f, None, f'{name}: a segment whose end points are NaN is rejected by every edge test before any arithmetic',
+                    f'{name}: with NaN end points the edge test is not rejected in its comparison prefix (arguments {leaks[:1]}): min / max keep their first operand when the second is NaN, '
+                    'so with the box edge handed over first the 1-d overlap tests pass, the orientation of NaN reads as collinear and an all-NaN ring "intersects" the box',
+                    construct=f'{name}: NaN segment rejected')
         R.count('orderings', ncases)
         if undecided:
             R.abstain('C01.m', f, None, f'{name}: the call chain down to segments_intersect is not interpretable (non-comparison construct before the edge test)')
